@@ -283,6 +283,49 @@ class A(Adapter):
     def end_cause(self, ps, action, s, ts, env, cfg):
         return "all_food_eaten" if W(s).eaten.all() else None
 
+    # ---- reach probes ------------------------------------------------------------------------------------
+    def events(self, ps, action, s, ts, env, cfg):
+        G = int(cfg["g"])
+        if ps is None:
+            w = W(s)
+            coop = bool((w.flev > w.alev.max(initial=0)).any())
+            adj = any(w.adjacent(i, k) for i in range(w.n) for k in range(w.f))
+            return ((["reset_multi_agent"] if w.n > 1 else ["reset_single_agent"]) + (["reset_food_needs_cooperation"] if coop else [])
+                    + (["reset_agent_adjacent_to_food"] if adj else []))
+        w0 = W(ps)
+        legal = self._legal_w(w0, G)
+        agents, foods = w0.agent_cells(), w0.food_cells()
+        ev = []
+        claims: Dict[Tuple[int, int], int] = {}
+        for i in range(w0.n):
+            a = int(action[i])
+            if a in MOVE:
+                cell = (int(w0.apos[i, 0]) + MOVE[a][0], int(w0.apos[i, 1]) + MOVE[a][1])
+                if legal[i, a]:
+                    claims[cell] = claims.get(cell, 0) + 1
+                else:
+                    ev.append("move_blocked_by_agent" if cell in agents else "move_blocked_by_food" if cell in foods else "move_blocked_by_border")
+            elif a == LOAD and not legal[i, LOAD]:
+                ev.append("load_without_adjacent_food")
+        ev += ["contention_2_agents_one_cell" if c == 2 else "contention_3_or_more_agents_one_cell" for c in claims.values() if c >= 2]
+        pos, _ = self._move_w(w0, G, action)
+        lv, eat = self._load_w(w0, pos, action)
+        for k in range(w0.f):
+            loaders = int((lv[k] > 0).sum())
+            if eat[k]:
+                ev.append("food_loaded_by_1_agent" if loaders == 1 else "food_loaded_by_2_or_more_agents")
+            elif loaders:
+                ev.append("load_failed_insufficient_level" + ("_with_penalty" if float(cfg.get("pen", 0.0)) > 0 else ""))
+        if int(eat.sum()) >= 2:
+            ev.append("two_foods_loaded_in_one_step")
+        if ((lv > 0).sum(axis=0) >= 2).any():
+            ev.append("loader_adjacent_to_two_foods")
+        if sum(1 for a in action if int(a) != 0) >= 2:
+            ev.append("agents_acting_simultaneously_ge2")
+        if W(s).eaten.all():
+            ev.append("end_all_food_eaten")
+        return ev
+
     # ---- C12 -------------------------------------------------------------------------------------------
     def observe(self, s, obs, env, cfg):
         w = W(s)
